@@ -198,7 +198,7 @@ def checkStmt (ce : Bool) (Γ : Ctx) (restricted : List String) (inLoop : Bool) 
   | .for x s e step body =>
     let ctl : Option (Option IKind) :=
       match Γ.lookup x with
-      | none => some none
+      | none => none            -- "undefined identifier" (the control variable is resolved)
       | some (.int k) => some (some k)
       | some .bool => none
     match ctl with
